@@ -50,12 +50,13 @@ def InvO (closed crashed authd : Bool) (srv : Server W I) (log : List Ev) : Prop
   (authd = true → AuthWitness S.offered log ∧
       (specRun S.offered maxRejects guid log).st.phase = .authenticated ∧ closed = false) ∧
   (specRun S.offered maxRejects guid log).ok = true ∧
-  (crashed = false → (specRun S.offered maxRejects guid log).crashSeen = false)
+  (crashed = false → (specRun S.offered maxRejects guid log).crashSeen = false) ∧
+  (authd = false → (specRun S.offered maxRejects guid log).st.phase ≠ .authenticated)
 
 def Inv (p : Proto W I) : Prop := InvO S guid p.closed p.crashed p.authenticated p.srv p.log
 
 theorem inv_init (w : W) : Inv S guid (Proto.init guid w) := by
-  refine ⟨?_, ?_, rfl, fun _ => rfl⟩
+  refine ⟨?_, ?_, rfl, fun _ => rfl, fun _ h => nomatch h⟩
   · intro _ _ _
     refine ⟨?_, ⟨?_, rfl⟩, rfl, ?_, rfl, rfl⟩
     · intro n i h; cases h
@@ -72,9 +73,10 @@ theorem step_inv (p : Proto W I) (l : Bytes) (h : Inv S guid p) (hc : p.closed =
         InvO S guid false false true (handle S p.srv l).srv (p.log ++ [evOf p.srv l (handle S p.srv l)])) ∧
     ((handle S p.srv l).res = .ok → (handle S p.srv l).srv.authenticated = false →
         Inv S guid (p.handled l (handle S p.srv l))) := by
-  obtain ⟨hlive, _, hok, hcs⟩ := h
+  obtain ⟨hlive, _, hok, hcs, hph⟩ := h
   obtain ⟨hcur, hinv2, hguid, hwfb, hspec, hrej⟩ := hlive hc hcr ha
   have hcs := hcs hcr
+  have hph := hph ha
   obtain ⟨f1, f2, f3, f4, f5, f6, f7⟩ := facts_handle S p.srv l hcur hinv2
   generalize ho : handle S p.srv l = o at *
   have hrun : specRun S.offered maxRejects guid (p.log ++ [evOf p.srv l o]) =
@@ -95,22 +97,30 @@ theorem step_inv (p : Proto W I) (l : Bytes) (h : Inv S guid p) (hc : p.closed =
     exact ⟨by rw [hok, hR.2]; rfl, hR.1, trivial⟩
   refine ⟨?_, ?_, ?_, ?_⟩
   · intro hres
-    refine ⟨?_, ?_, ?_, ?_⟩
+    refine ⟨?_, ?_, ?_, ?_, ?_⟩
     · intro _ hx; cases hx
     · intro hx; have hx' : p.authenticated = true := hx; rw [ha] at hx'; cases hx'
     · show (specRun S.offered maxRejects guid (p.log ++ [evOf p.srv l o])).ok = true
       rw [hrun]; unfold specFold
       simp [hcs, evOf, hres, hok]
     · intro hx; cases hx
+    · intro _
+      show (specRun S.offered maxRejects guid (p.log ++ [evOf p.srv l o])).st.phase ≠ .authenticated
+      rw [hrun]; unfold specFold
+      simp only [hcs, evOf, hres, Bool.false_eq_true, if_false, if_true]
+      exact hph
   · intro hres
     have := hstep (by rw [hres]; decide)
-    refine ⟨?_, ?_, this.1, fun _ => this.2.2⟩
+    refine ⟨?_, ?_, this.1, fun _ => this.2.2, ?_⟩
     · intro hx; cases hx
     · intro hx; have hx' : p.authenticated = true := hx; rw [ha] at hx'; cases hx'
+    · intro _
+      show (specRun S.offered maxRejects guid (p.log ++ [evOf p.srv l o])).st.phase ≠ .authenticated
+      rw [this.2.1]; simp [absOut, hres]
   · intro hres hauth
     have := hstep (by rw [hres]; decide)
     obtain ⟨g1, g2, g3⟩ := f4 hauth
-    refine ⟨?_, ?_, this.1, fun _ => this.2.2⟩
+    refine ⟨?_, ?_, this.1, fun _ => this.2.2, fun hx => nomatch hx⟩
     · intro _ _ hx; cases hx
     · intro _
       refine ⟨?_, ?_, rfl⟩
@@ -119,7 +129,13 @@ theorem step_inv (p : Proto W I) (l : Bytes) (h : Inv S guid p) (hc : p.closed =
       · rw [this.2.1]; simp [absOut, hres, hauth]
   · intro hres hauth
     have := hstep (by rw [hres]; decide)
-    refine ⟨?_, ?_, this.1, fun _ => this.2.2⟩
+    refine ⟨?_, ?_, this.1, fun _ => this.2.2, ?_⟩
+    rotate_left 2
+    · intro _
+      show (specRun S.offered maxRejects guid (p.log ++ [evOf p.srv l o])).st.phase ≠ .authenticated
+      rw [this.2.1]
+      simp only [absOut, hres, hauth, absSrv]
+      cases o.srv.state <;> simp [phaseOf]
     · intro _ _ _
       refine ⟨f1, f3 hres hauth, f2.trans hguid, ?_, ?_, ?_⟩
       · intro hs
@@ -135,11 +151,14 @@ theorem step_inv (p : Proto W I) (l : Bytes) (h : Inv S guid p) (hc : p.closed =
 
 /-- A state that is closed or crashed (and not authenticated) with the same log keeps the invariant. -/
 theorem inv_dead (p q : Proto W I) (h : Inv S guid p) (hq : q.closed = true ∨ q.crashed = true)
-    (ha : q.authenticated = false) (hlog : q.log = p.log) (hcr : q.crashed = false → p.crashed = false) :
+    (ha : q.authenticated = false) (hlog : q.log = p.log) (hcr : q.crashed = false → p.crashed = false)
+    (hpa : p.authenticated = false) :
     Inv S guid q := by
   unfold Inv InvO
   rw [hlog, ha]
-  refine ⟨?_, ?_, h.2.2.1, fun hx => h.2.2.2 (hcr hx)⟩
+  refine ⟨?_, ?_, h.2.2.1, fun hx => h.2.2.2.1 (hcr hx), fun _ => ?_⟩
+  rotate_left 2
+  · exact h.2.2.2.2 hpa
   · intro h1 h2 _
     rcases hq with hq | hq
     · rw [hq] at h1; cases h1
@@ -164,7 +183,7 @@ theorem lineLoop_inv (p : Proto W I) (ls : List Bytes) (h : Inv S guid p) (hcr :
       by_cases hl : l.length > maxAuthLength
       · simp only [hc', hl, if_true, Bool.false_eq_true, if_false]
         refine ⟨fun _ hx => (nomatch hx), fun _ => ?_⟩
-        exact inv_dead S guid p p.close h (Or.inl rfl) ha rfl (fun hx => hx)
+        exact inv_dead S guid p p.close h (Or.inl rfl) ha rfl (fun hx => hx) ha
       · simp only [hc', hl, Bool.false_eq_true, if_false]
         obtain ⟨s1, s2, s3, s4⟩ := step_inv S guid p l h hc' hcr ha
         cases hr : (handle S p.srv l).res with
@@ -198,7 +217,7 @@ theorem recvLines_inv (p : Proto W I) (d : Bytes) (h : Inv S guid p) (hcr : p.cr
       have hq : Inv S guid q := this.2 (fun _ hx => by cases hx)
       simp only
       split
-      · exact inv_dead S guid q q.close hq (Or.inl rfl) (hfr.2.2.1.trans ha) rfl (fun hx => hx)
+      · exact inv_dead S guid q q.close hq (Or.inl rfl) (hfr.2.2.1.trans ha) rfl (fun hx => hx) (hfr.2.2.1.trans ha)
       · exact hq
     | ret => exact this.2 (fun _ hx => by cases hx)
     | success rest => exact this.1 rest rfl
@@ -215,14 +234,14 @@ theorem recv_inv (p : Proto W I) (d : Bytes) (h : Inv S guid p) : Inv S guid (re
         cases d with
         | nil =>
           simp only [recv, hcr, ha, hf, if_true, Bool.false_eq_true, if_false]
-          exact inv_dead S guid p p.crash h (Or.inr rfl) ha rfl (fun hx => by cases hx)
+          exact inv_dead S guid p p.crash h (Or.inr rfl) ha rfl (fun hx => by cases hx) ha
         | cons b d' =>
           by_cases hb : b = 0
           · subst hb
             rw [recv_first_nul S p d' hcr ha hf]
             exact recvLines_inv S guid p.dropFirst d' h hcr ha
           · rw [recv_first_bad S p b d' hcr ha hf hb]
-            exact inv_dead S guid p p.close h (Or.inl rfl) ha rfl (fun hx => hx)
+            exact inv_dead S guid p p.close h (Or.inl rfl) ha rfl (fun hx => hx) ha
       | false =>
         rw [recv_lines S p d hcr ha hf]
         exact recvLines_inv S guid p d h hcr ha
